@@ -176,6 +176,7 @@ def make_plan(seed: int, tier: str, index: int) -> dict[str, Any]:
             schedule = {"mode": "writes", "seed": sc.getrandbits(32), "p": sc.choice([0.1, 0.3, 0.6]),
                         "hold": sc.choice([20, 200, 1000, 4000])}
     predecessor = None
+    predecessor_sel = None
     if p.random() < 0.4:
         # another chart parsed earlier in the same process: same instruments where possible, other
         # difficulties (nothing of it may turn up in the charts parsed afterwards)
@@ -185,11 +186,14 @@ def make_plan(seed: int, tier: str, index: int) -> dict[str, Any]:
         pdoc = gen.gen_doc(g, headers=ph, small=True)
         pdoc["unknown"] = []
         predecessor = gen.render(pdoc)
+        predecessor_sel = ({"form": p.choice(["list", "tuple"]), "pairs": sorted(list(gen.HEADERS[h]) for h in ph)}
+                           if p.random() < 0.5 else None)
     missing = p.randrange(3)
     msecs = [s for i, s in enumerate(secs) if i != missing]
     p.shuffle(msecs)
     return {"property": PROP, "seed": seed, "sub_batch": sub, "doc": doc,
             "n_clients": n_clients, "schedule": schedule, "predecessor": predecessor,
+            "predecessor_select": predecessor_sel,
             "variants": variants, "missing": {"dropped": gen.REQUIRED[missing],
                                               "text": gen.render_sections(msecs, newline=p.choice(["\n", "\r\n"]))}}
 
@@ -326,7 +330,7 @@ def execute(plan: dict[str, Any]) -> dict[str, Any]:
     records: dict[int, Any] = {}
     if plan.get("predecessor") and n_clients == 1:
         try:
-            world.parse_text(plan["predecessor"])
+            world.parse_text(plan["predecessor"], plan.get("predecessor_select"))
             probes["predecessor_chart_parsed_first"] = 1
         except Exception:  # noqa: BLE001
             pass
